@@ -28,7 +28,7 @@ ASSUMPTIONS = ['field values handed to the recorder are free of CR/LF: URL (C10 
                'a revisit record keeps the payload digest of the response it was cut from (the WARC meaning of the field); '
                'its block must equal the wire header block exactly',
                'warcinfo field names given by the user are ASCII']
-UNPROVED = []
+UNPROVED = ['history-level ids_unique (all record ids of a life pairwise distinct given distinct uuids): creation-level injectivity is proved, the history statement is checked by the oracle only', 'FieldsOk for every record the recorder builds (CR/LF-freeness per value source is proved for lengths, ids, digests; URL and IP address are assumptions checked by the strict reader)']
 
 PID = 'C05'
 
